@@ -172,14 +172,17 @@ def machine_spec(draw, profile="general", tier="quick"):
                     k = max(k, 1)
                     asg[k][0] = asg[k - 1][0]
                 if f == "cpu_over":
-                    asg[k][3] = ["over", draw(st.integers(1, 3))]
+                    asg[k][3] = ["over", draw(st.integers(1, 3))] if draw(st.integers(0, 2)) else ["over_release"]
                 elif f == "ram_over":
-                    asg[k][4] = ["over", draw(st.sampled_from([1e-3, 0.5, 10]))]
+                    asg[k][4] = ["over", draw(st.sampled_from([1e-3, 0.5, 10]))] if draw(st.integers(0, 2)) else ["over_release"]
                 else:
                     asg[k][5] = f
             else:
                 sus.append([draw(st.integers(0, pools - 1)), draw(st.integers(0, 5)), draw(st.sampled_from(SUS_FAULTS))])
-        steps.append({"sus": sus, "asg": asg, "idle": draw(st.sampled_from([0, 0, 0, 1, 1, 2, 3, 6]))})
+        step = {"sus": sus, "asg": asg, "idle": draw(st.sampled_from([0, 0, 0, 1, 1, 2, 3, 6]))}
+        if profile in ("suspend", "twins", "branches", "general") and asg and draw(st.integers(0, 9)) == 0:
+            step["for"] = draw(st.sampled_from([1, 2]))
+        steps.append(step)
     return {"tps": tps, "pools": pools, "cpus": cpus, "ram": ram, "over": over, "multi": multi, "pipes": pipes,
             "steps": steps}
 
@@ -276,7 +279,7 @@ class Episode:
     # -- one step -------------------------------------------------------------------------------
     def run(self):
         for step in self.spec["steps"]:
-            self.do_tick(step["sus"], step["asg"])
+            self.do_tick(step["sus"], step["asg"], step.get("for", 0))
             if self.ended:
                 return
             for _ in range(step["idle"]):
@@ -291,7 +294,7 @@ class Episode:
             if self.ended:
                 return
 
-    def do_tick(self, sus_cmds, asg_cmds):
+    def do_tick(self, sus_cmds, asg_cmds, fault_on_release=0):
         from eudoxia.executor.assignment import Assignment, Suspend
         from eudoxia.utils import Priority
         out = self.out
@@ -361,11 +364,36 @@ class Episode:
         bad_pool_cmd = False
         ctor_reject = None
         taken = {}            # template -> next op index already handed out this tick
+        release_fault_pools = set()
         for pool, pi, nops, cpuspec, ramspec, bad in asg_cmds:
             m = self.mp[pool]
+            ramspec_is_over = False
             # sizes
             free_cpu_left = m.free_cpu - sum(b[0] for b in batch_by_pool[pool])
             free_ram_left = float(self.ex.pools[pool].avail_ram_pool) - sum(b[1] for b in batch_by_pool[pool])
+            if fault_on_release and not self.spec["over"]:
+                # "for" flag of the step: if an allocation is being released in this very tick, ask for part of it
+                pending = [c for c in m.suspending if c.sus_elapsed + 1 >= max(c.sus_allowed)] + \
+                          [self.containers[x] for x in sus_by_pool[pool] if x in self.containers and max(T.suspend_ticks(self.containers[x].ram, self.tps)) == 1]
+                if pending:
+                    if fault_on_release == 1:
+                        cpuspec = ["over_release"]
+                    else:
+                        ramspec = ["over_release"]
+                    fault_on_release = 0
+            releasing = [c for c in m.suspending if c.sus_elapsed + 1 >= max(c.sus_allowed)] + \
+                        [self.containers[x] for x in sus_by_pool[pool] if x in self.containers and max(T.suspend_ticks(self.containers[x].ram, self.tps)) == 1]
+            if cpuspec[0] == "over_release":
+                cpuspec = ["over", 1] if not releasing else ["abs", max(free_cpu_left, 0) + releasing[0].cpu]
+                if releasing:
+                    out.label("oversell_by_allocation_being_released")
+                    release_fault_pools.add(pool)
+            if ramspec[0] == "over_release":
+                ramspec = ["over", 0.5] if not releasing else ["abs", max(free_ram_left, 0.0) + float(releasing[0].ram) * 0.5]
+                if releasing:
+                    ramspec_is_over = True
+                    out.label("oversell_by_allocation_being_released")
+                    release_fault_pools.add(pool)
             if cpuspec[0] == "abs":
                 cpu = cpuspec[1]
             elif cpuspec[0] == "all":
@@ -374,8 +402,8 @@ class Episode:
                 cpu = max(1, free_cpu_left // cpuspec[1])
             else:
                 cpu = max(free_cpu_left, 0) + cpuspec[1]
-            if cpuspec[0] != "over" and cpu > free_cpu_left:
-                cpu = free_cpu_left   # only the 'over' spec oversells on purpose
+            if cpuspec[0] != "over" and cpu > free_cpu_left and not (releasing and cpu == max(free_cpu_left, 0) + releasing[0].cpu):
+                cpu = free_cpu_left   # only the 'over' specs oversell on purpose
             if cpu <= 0:
                 continue          # nothing free: the command is not issued
             # operators
@@ -434,7 +462,7 @@ class Episode:
                 ram = round(free_ram_left * ramspec[1], 6)
             else:
                 ram = max(free_ram_left, 0) + ramspec[1]
-            if ramspec[0] not in ("over", "all") and not self.spec["over"] and ram > free_ram_left - 1e-3:
+            if ramspec[0] not in ("over", "all") and not self.spec["over"] and ram > free_ram_left - 1e-3 and not locals().get("ramspec_is_over"):
                 # only the 'over' spec oversells on purpose; everything else is cut down to what is free
                 ram = round(free_ram_left * 0.5, 6)
             if not ram > 1e-4:
@@ -517,6 +545,8 @@ class Episode:
             v, tag, why = self.mp[pool].judge_batch(batch_by_pool[pool])
             if v == "reject":
                 expect = "reject"
+                if pool in release_fault_pools:
+                    reasons.insert(0, ("C10", f"batch {batch_by_pool[pool]} needs part of an allocation that a suspending container of pool {pool} holds until the end of this tick"))
                 reasons.append((tag, why))
                 if tag == "C03":
                     rejected_pools.append(pool)
@@ -714,11 +744,13 @@ class Episode:
         if not rp.active_containers and rep != 0:
             if abs(rep) > tol:
                 P("C04:reported-usage-wrong", f"pool {pool}: empty pool reports {rep} GB")
-        # C09: a container whose operators have all reached a final state has ended: it must have reported in this tick
+        # C09 / C03: a container whose operators have all reached a final state has ended: it must have reported, and its
+        # allocation must have been returned, in this tick
         for c in rp.active_containers:
             sts = [o.state().value for o in c.operators]
             if all(x in ("completed", "failed") for x in sts):
                 P("C09:ended-without-result-in-tick", f"{c.container_id} has operator states {sts} but is still listed as running and reported no result")
+                P("C03:allocation-not-returned-in-ending-tick", f"{c.container_id} has operator states {sts} (it has ended) but still holds {c.assignment.cpu} CPUs / {c.assignment.ram} GB after the tick")
         # C09 accounting
         live = len(rp.active_containers) + len(rp.suspending_containers)
         if m.n_accepted != m.n_ok + m.n_failed + len(rp.suspended_containers) + live:
